@@ -1,20 +1,304 @@
-import Qv.Spec.Flat
-import Qv.Model.Dev
+import Qv.Proofs.Flat
 /-
-C01 — sequential reads equal a flat reference disk.  (Theorem set under
-construction: see DESIGN.md 5.C01; statements are added here, helper lemmas
-live under Qv/Proofs.)
+C01 — sequential reads equal a flat reference disk.  This file states what
+"read-your-writes" and "frame" mean on the flat disk `Qv.Spec.Flat` (all
+statements are unbounded: any offsets, any token lists, any number of writes).
+Helper lemmas live in `Qv/Proofs/Flat.lean`.
+
+`off` is a byte offset; the flat disk indexes sectors by `off / 512`, so none of
+the sector-wise laws needs `off % 512 = 0`.
 -/
 namespace Qv.Props.C01
 open Qv Qv.Spec
 
-/-- the flat disk itself is read-your-writes: a read of a range just written
-    returns exactly the written tokens -/
-theorem flat_read_write_same (f : Flat) (s : Nat) (t : Nat) :
-    ((f.sec.set s t).get s) = t := by simp
+/-! ## 1. One write -/
 
-/-- frame on the flat disk: other sectors are untouched by a sector update -/
-theorem flat_frame (f : Flat) (s s' t : Nat) (h : s ≠ s') :
-    ((f.sec.set s t).get s') = f.sec.get s' := FMap.get_set_other _ _ _ _ h
+theorem flat_read_length (f : Flat) (off n : Nat) : (f.read off n).length = n := by
+  simp [Flat.read]
+
+/-- a read is the sector contents, sector by sector -/
+theorem flat_read_getElem (f : Flat) (off n i : Nat) (h : i < (f.read off n).length) :
+    (f.read off n)[i] = f.sec.get (off / 512 + i) := by
+  simp [Flat.read]
+
+/-- inside the written range the sector carries the written token -/
+theorem flat_write_inside (f : Flat) (off : Nat) (toks : List Nat) (k : Nat) (h : k < toks.length) :
+    (f.write off toks).sec.get (off / 512 + k) = toks.getD k 0 := by
+  rw [Flat.write_sec_get, if_pos (by omega)]
+  congr 1; omega
+
+/-- frame: every sector outside `[off/512, off/512 + toks.length)` is unchanged -/
+theorem flat_write_frame (f : Flat) (off : Nat) (toks : List Nat) (s : Nat)
+    (h : ¬ (off / 512 ≤ s ∧ s < off / 512 + toks.length)) :
+    (f.write off toks).sec.get s = f.sec.get s := by
+  rw [Flat.write_sec_get, if_neg h]
+
+/-- read-your-writes: reading exactly the range just written returns the written
+    tokens (holds for every `off`, also unaligned, and for the empty list) -/
+theorem flat_read_write (f : Flat) (off : Nat) (toks : List Nat) :
+    (f.write off toks).read off toks.length = toks := by
+  apply List.ext_getElem
+  · rw [flat_read_length]
+  · intro i h1 h2
+    rw [flat_read_getElem, flat_write_inside f off toks i h2]
+    simp [List.getD, h2]
+
+/-- a read disjoint from the written range is unchanged by the write -/
+theorem flat_read_write_disjoint (f : Flat) (off : Nat) (toks : List Nat) (off' n : Nat)
+    (h : off' / 512 + n ≤ off / 512 ∨ off / 512 + toks.length ≤ off' / 512) :
+    (f.write off toks).read off' n = f.read off' n := by
+  apply List.ext_getElem
+  · rw [flat_read_length, flat_read_length]
+  · intro i h1 h2
+    rw [flat_read_length] at h1
+    rw [flat_read_getElem, flat_read_getElem, flat_write_frame]
+    omega
+
+/-- the clusters touched by a (non-empty) write become owned; all other `own`
+    bits are unchanged -/
+theorem flat_write_own (f : Flat) (off : Nat) (toks : List Nat) (g : Nat) :
+    (f.write off toks).own.get g =
+      if toks ≠ [] ∧ off / f.cs ≤ g ∧ g ≤ (off + toks.length * 512 - 1) / f.cs then true
+      else f.own.get g :=
+  Flat.write_own_get f off toks g
+
+theorem flat_write_own_touched (f : Flat) (off : Nat) (toks : List Nat) (g : Nat)
+    (hne : toks ≠ []) (h1 : off / f.cs ≤ g) (h2 : g ≤ (off + toks.length * 512 - 1) / f.cs) :
+    (f.write off toks).own.get g = true := by
+  rw [flat_write_own, if_pos ⟨hne, h1, h2⟩]
+
+theorem flat_write_own_frame (f : Flat) (off : Nat) (toks : List Nat) (g : Nat)
+    (h : ¬ (off / f.cs ≤ g ∧ g ≤ (off + toks.length * 512 - 1) / f.cs)) :
+    (f.write off toks).own.get g = f.own.get g := by
+  rw [flat_write_own, if_neg (fun x => h x.2)]
+
+/-- ownership is never lost by a write -/
+theorem flat_write_own_mono (f : Flat) (off : Nat) (toks : List Nat) (g : Nat)
+    (h : f.own.get g = true) : (f.write off toks).own.get g = true := by
+  rw [flat_write_own]; split <;> simp [h]
+
+theorem flat_write_vsize (f : Flat) (off : Nat) (toks : List Nat) :
+    (f.write off toks).vsize = f.vsize := Flat.write_vsize f off toks
+
+theorem flat_write_cs (f : Flat) (off : Nat) (toks : List Nat) :
+    (f.write off toks).cs = f.cs := Flat.write_cs f off toks
+
+theorem flat_write_empty (f : Flat) (off : Nat) : f.write off [] = f := Flat.write_nil f off
+
+/-! ## 2. Two writes: the last writer wins -/
+
+theorem flat_write_write (f : Flat) (o1 o2 : Nat) (t1 t2 : List Nat) (s : Nat) :
+    ((f.write o1 t1).write o2 t2).sec.get s =
+      if o2 / 512 ≤ s ∧ s < o2 / 512 + t2.length then t2.getD (s - o2 / 512) 0
+      else if o1 / 512 ≤ s ∧ s < o1 / 512 + t1.length then t1.getD (s - o1 / 512) 0
+      else f.sec.get s := by
+  rw [Flat.write_sec_get, Flat.write_sec_get]
+
+/-- writes to disjoint sector ranges commute (sector-wise) -/
+theorem flat_write_comm_disjoint (f : Flat) (o1 o2 : Nat) (t1 t2 : List Nat) (s : Nat)
+    (h : o1 / 512 + t1.length ≤ o2 / 512 ∨ o2 / 512 + t2.length ≤ o1 / 512) :
+    ((f.write o1 t1).write o2 t2).sec.get s = ((f.write o2 t2).write o1 t1).sec.get s := by
+  rw [flat_write_write, flat_write_write]
+  by_cases c1 : o1 / 512 ≤ s ∧ s < o1 / 512 + t1.length
+  · rw [if_neg (by omega), if_pos c1, if_pos c1]
+  · by_cases c2 : o2 / 512 ≤ s ∧ s < o2 / 512 + t2.length
+    · rw [if_pos c2, if_neg c1, if_pos c2]
+    · rw [if_neg c2, if_neg c1, if_neg c1, if_neg c2]
+
+/-- writing the same range twice: only the second write is visible -/
+theorem flat_write_overwrite (f : Flat) (off : Nat) (t1 t2 : List Nat) (h : t1.length = t2.length) :
+    ((f.write off t1).write off t2).read off t2.length = t2 ∧
+    ∀ s, ((f.write off t1).write off t2).sec.get s = (f.write off t2).sec.get s := by
+  refine ⟨flat_read_write _ _ _, ?_⟩
+  intro s
+  rw [flat_write_write, Flat.write_sec_get, h]
+  by_cases c : off / 512 ≤ s ∧ s < off / 512 + t2.length
+  · rw [if_pos c, if_pos c]
+  · rw [if_neg c, if_neg c, if_neg c]
+
+/-! ## 3. Any number of writes: "overlaid with every completed write in order" -/
+
+/-- apply the writes `(offset, tokens)` in list order -/
+def applyWrites (f : Flat) (ws : List (Nat × List Nat)) : Flat :=
+  ws.foldl (fun acc w => acc.write w.1 w.2) f
+
+/-- `w` covers sector `s` -/
+def Covers (w : Nat × List Nat) (s : Nat) : Prop := w.1 / 512 ≤ s ∧ s < w.1 / 512 + w.2.length
+
+instance (w : Nat × List Nat) (s : Nat) : Decidable (Covers w s) := by unfold Covers; infer_instance
+
+/-- the token `w` puts on the sector `s` it covers -/
+def tokenAt (w : Nat × List Nat) (s : Nat) : Nat := w.2.getD (s - w.1 / 512) 0
+
+/-- token of the last write in `ws` covering sector `s`, if any -/
+def lastCovering : List (Nat × List Nat) → Nat → Option Nat
+  | [], _ => none
+  | w :: ws, s =>
+    match lastCovering ws s with
+    | some t => some t
+    | none => if Covers w s then some (tokenAt w s) else none
+
+theorem applyWrites_nil (f : Flat) : applyWrites f [] = f := rfl
+
+theorem applyWrites_cons (f : Flat) (w : Nat × List Nat) (ws : List (Nat × List Nat)) :
+    applyWrites f (w :: ws) = applyWrites (f.write w.1 w.2) ws := rfl
+
+theorem applyWrites_append (f : Flat) (ws ws' : List (Nat × List Nat)) :
+    applyWrites f (ws ++ ws') = applyWrites (applyWrites f ws) ws' := by
+  unfold applyWrites; rw [List.foldl_append]
+
+/-- no write covers `s` iff `lastCovering` finds none -/
+theorem lastCovering_none_iff (ws : List (Nat × List Nat)) (s : Nat) :
+    lastCovering ws s = none ↔ ∀ w ∈ ws, ¬ Covers w s := by
+  induction ws with
+  | nil => simp [lastCovering]
+  | cons w ws ih =>
+    rw [lastCovering]
+    cases hl : lastCovering ws s with
+    | some t =>
+      simp only [reduceCtorEq, false_iff]
+      intro h
+      have : lastCovering ws s = none := ih.2 (fun w' hw' => h w' (List.mem_cons_of_mem _ hw'))
+      rw [hl] at this; cases this
+    | none =>
+      have ih' := ih.1 hl
+      by_cases c : Covers w s
+      · simp only [c, if_true, reduceCtorEq, false_iff]
+        intro h; exact h w (List.mem_cons_self) c
+      · simp only [c, if_false, true_iff]
+        intro w' hw'
+        rcases List.mem_cons.1 hw' with rfl | h
+        · exact c
+        · exact ih' w' h
+
+/-- `lastCovering` really is the last one: appending a write that covers `s`
+    replaces the answer, appending one that does not leaves it -/
+theorem lastCovering_append_single (ws : List (Nat × List Nat)) (w : Nat × List Nat) (s : Nat) :
+    lastCovering (ws ++ [w]) s = if Covers w s then some (tokenAt w s) else lastCovering ws s := by
+  induction ws with
+  | nil =>
+    show lastCovering [w] s = _
+    simp [lastCovering]
+  | cons w0 ws ih =>
+    show lastCovering (w0 :: (ws ++ [w])) s = _
+    rw [lastCovering, ih]
+    by_cases c : Covers w s
+    · simp [c]
+    · simp only [c, if_false]
+      rw [lastCovering]
+
+/-- `lastCovering ws s = some t` exactly when `ws` splits around a write covering
+    `s` with token `t` after which no write covers `s` -/
+theorem lastCovering_some_iff (ws : List (Nat × List Nat)) (s t : Nat) :
+    lastCovering ws s = some t ↔
+      ∃ pre w post, ws = pre ++ w :: post ∧ Covers w s ∧ tokenAt w s = t ∧ ∀ w' ∈ post, ¬ Covers w' s := by
+  induction ws with
+  | nil => simp [lastCovering]
+  | cons w0 ws ih =>
+    rw [lastCovering]
+    cases hl : lastCovering ws s with
+    | some t' =>
+      dsimp only
+      constructor
+      · intro h
+        obtain ⟨pre, w, post, e, c, tk, hp⟩ := ih.1 (by rw [hl, h])
+        exact ⟨w0 :: pre, w, post, by rw [e]; rfl, c, tk, hp⟩
+      · rintro ⟨pre, w, post, e, c, tk, hp⟩
+        cases pre with
+        | nil =>
+          simp only [List.nil_append, List.cons.injEq] at e
+          obtain ⟨rfl, rfl⟩ := e
+          have := (lastCovering_none_iff _ s).2 hp
+          rw [hl] at this; cases this
+        | cons p pre =>
+          simp only [List.cons_append, List.cons.injEq] at e
+          obtain ⟨rfl, rfl⟩ := e
+          have := ih.2 ⟨pre, w, post, rfl, c, tk, hp⟩
+          rw [← this, hl]
+    | none =>
+      have hn := (lastCovering_none_iff ws s).1 hl
+      dsimp only
+      constructor
+      · intro h
+        by_cases c : Covers w0 s
+        · simp only [c, if_true, Option.some.injEq] at h
+          exact ⟨[], w0, ws, rfl, c, h, hn⟩
+        · simp [c] at h
+      · rintro ⟨pre, w, post, e, c, tk, hp⟩
+        cases pre with
+        | nil =>
+          simp only [List.nil_append, List.cons.injEq] at e
+          obtain ⟨rfl, rfl⟩ := e
+          simp [c, tk]
+        | cons p pre =>
+          simp only [List.cons_append, List.cons.injEq] at e
+          obtain ⟨rfl, rfl⟩ := e
+          exact absurd c (hn w (by simp))
+
+/-- the content of sector `s` after any sequence of writes is the token of the
+    last write covering `s`, or the initial content if none covers it -/
+theorem flat_read_after_writes (f : Flat) (ws : List (Nat × List Nat)) (s : Nat) :
+    (applyWrites f ws).sec.get s = (lastCovering ws s).getD (f.sec.get s) := by
+  induction ws generalizing f with
+  | nil => rfl
+  | cons w ws ih =>
+    rw [applyWrites_cons, ih, lastCovering]
+    cases hl : lastCovering ws s with
+    | some t => rfl
+    | none =>
+      dsimp only [Option.getD]
+      rw [Flat.write_sec_get]
+      by_cases c : Covers w s
+      · rw [if_pos c, if_pos (show w.1 / 512 ≤ s ∧ s < w.1 / 512 + w.2.length from c)]; rfl
+      · rw [if_neg c, if_neg (show ¬ (w.1 / 512 ≤ s ∧ s < w.1 / 512 + w.2.length) from c)]
+
+/-- the same for a whole read -/
+theorem flat_read_after_writes_read (f : Flat) (ws : List (Nat × List Nat)) (off n : Nat) :
+    (applyWrites f ws).read off n =
+      (List.range n).map (fun i => (lastCovering ws (off / 512 + i)).getD (f.sec.get (off / 512 + i))) := by
+  unfold Flat.read
+  apply List.map_congr_left
+  intro i _
+  exact flat_read_after_writes f ws _
+
+/-- sectors covered by no write keep their initial content -/
+theorem flat_after_writes_frame (f : Flat) (ws : List (Nat × List Nat)) (s : Nat)
+    (h : ∀ w ∈ ws, ¬ Covers w s) : (applyWrites f ws).sec.get s = f.sec.get s := by
+  rw [flat_read_after_writes, (lastCovering_none_iff ws s).2 h]; rfl
+
+theorem flat_after_writes_vsize_cs (f : Flat) (ws : List (Nat × List Nat)) :
+    (applyWrites f ws).vsize = f.vsize ∧ (applyWrites f ws).cs = f.cs := by
+  induction ws generalizing f with
+  | nil => exact ⟨rfl, rfl⟩
+  | cons w ws ih =>
+    rw [applyWrites_cons]
+    obtain ⟨a, b⟩ := ih (f.write w.1 w.2)
+    exact ⟨a.trans (flat_write_vsize _ _ _), b.trans (flat_write_cs _ _ _)⟩
+
+/-! ## 4. Non-vacuity: concrete instances -/
+
+/-- an empty 4 KiB disk with 1 KiB clusters -/
+def flatEx : Flat := { vsize := 4096, cs := 1024, sec := FMap.empty 0, own := FMap.empty false }
+
+example : (flatEx.write 512 [7, 8]).read 512 2 = [7, 8] := flat_read_write flatEx 512 [7, 8]
+example : (flatEx.write 512 [7, 8]).sec.get 2 = 8 := flat_write_inside flatEx 512 [7, 8] 1 (by decide)
+example : (flatEx.write 512 [7, 8]).sec.get 3 = 0 := by
+  rw [flat_write_frame _ _ _ _ (by decide)]; exact FMap.get_empty _ _
+example : (flatEx.write 512 [7, 8]).own.get 0 = true ∧ (flatEx.write 512 [7, 8]).own.get 1 = true ∧
+    (flatEx.write 512 [7, 8]).own.get 2 = false := by
+  refine ⟨?_, ?_, ?_⟩
+  · exact flat_write_own_touched _ _ _ _ (by decide) (by decide) (by decide)
+  · exact flat_write_own_touched _ _ _ _ (by decide) (by decide) (by decide)
+  · rw [flat_write_own_frame _ _ _ _ (by decide)]; exact FMap.get_empty _ _
+/-- overlapping writes: sector 2 is covered by both, the later one wins; sector 1
+    only by the first; sector 5 by none -/
+example : lastCovering [(512, [7, 8]), (1024, [9])] 2 = some 9 ∧
+    lastCovering [(512, [7, 8]), (1024, [9])] 1 = some 7 ∧
+    lastCovering [(512, [7, 8]), (1024, [9])] 5 = none := by decide
+example : (applyWrites flatEx [(512, [7, 8]), (1024, [9])]).sec.get 2 = 9 := by
+  rw [flat_read_after_writes]; decide
+example : (applyWrites flatEx [(512, [7, 8]), (1024, [9])]).read 0 4 = [0, 7, 9, 0] := by
+  rw [flat_read_after_writes_read]
+  simp [List.range_succ, flatEx, lastCovering, Covers, tokenAt]
 
 end Qv.Props.C01
